@@ -6,8 +6,9 @@
   `a`, `b` of `e`:  build a = build b = machine (XC.program e).
   Proved here: the grammar the parser model transcribes is the grammar of the source, production by
   production (regenerated obligation); **precedence and associativity** (`C03_precedence`,
-  `C03_parenthesisation_irrelevant`): for every expression over numbers, literals, location paths without
-  predicates (absolute, relative, current()-rooted; name, `..` and `.` steps), unary minus, the
+  `C03_parenthesisation_irrelevant`): for every expression over numbers, literals, location paths (absolute,
+  relative, current()-rooted; name, `..` and `.` steps; any number of predicates on a name step, each
+  containing any expression of this kind again — `blk_of`), unary minus, the
   thirteen binary operators, parentheses and function calls with up to three argument expressions (each
   argument again any such expression) — any operator mix, any depth — that carries at least the
   parentheses its shape needs (`PE.fits 0`: a left operand may be of the operator's own level, a right
@@ -20,7 +21,7 @@
   continue the token: `1-1*1`, `not(1)`), is turned by `build` — decode, lex, parse, CreateProgram — into the machine of the
   tree, the operator names and `*` being told apart by the preceding token and function names by the `(`
   that follows; so two such texts of one tree build the same machine.  NOT proved: the same with
-  predicates, deref() and unions; at the text level, numerals with an exponent — held by the correspondence stream c03 (two renderings of the same tree, compared
+  deref() and unions; at the text level, numerals with an exponent — held by the correspondence stream c03 (two renderings of the same tree, compared
   with each other and with `XC.program`), i.e. by testing.
 -/
 import YV.Proofs.XLexWS
@@ -75,10 +76,29 @@ def exCall : PE :=
 example : exCall.fits 0 := by simp [exCall, PE.fits, level, Fn.sig]
 /-- … with location paths as operands: ../a/b + /c * current()/d = . -/
 def exPath : PE :=
-  .bin .eq (.bin .add (.path (.rel .up) [.name [] [97], .name [] [98]])
-      (.bin .mul (.path .abs [.name [] [99]]) (.path .cur [.name [] [100]])))
+  .bin .eq (.bin .add (.path (.rel .up) [.name [] [97] [], .name [] [98] []])
+      (.bin .mul (.path .abs [.name [] [99] []]) (.path .cur [.name [] [100] []])))
     (.path (.rel .dot) [])
-example : exPath.fits 0 := by simp [exPath, PE.fits, level]
+example : exPath.fits 0 := by simp [exPath, PE.fits, level, pathOK, PStep.ok, PStep.preds]
+/-- … with predicates, whose contents are expressions of the same kind (`blk_of`), to any depth:
+    a[k = 1][../x]/b -/
+def exKey : PE := .bin .eq (.path (.rel (.name [] [107] [])) []) (.num SF.one)
+def exUp : PE := .path (.rel .up) [.name [] [120] []]
+def exPred : PE := .path (.rel (.name [] [97] [⟨exKey.toks, exKey.code⟩, ⟨exUp.toks, exUp.code⟩])) [.name [] [98] []]
+example : exPred.fits 0 := by
+  have h1 : exKey.fits 0 := by simp [exKey, PE.fits, level, pathOK, PStep.ok, PStep.preds]
+  have h2 : exUp.fits 0 := by simp [exUp, PE.fits, pathOK, PStep.ok, PStep.preds]
+  refine ⟨?_, ?_⟩
+  · intro b hb
+    simp only [PStep.preds, List.mem_cons, List.mem_nil_iff, or_false] at hb
+    rcases hb with rfl | rfl
+    · exact blk_of exKey h1
+    · exact blk_of exUp h2
+  · intro st hst
+    simp only [List.mem_cons, List.mem_nil_iff, or_false] at hst
+    subst hst
+    intro b hb
+    simp [PStep.preds] at hb
 /-- and a shape that needs its parentheses does not fit without them: 1 - (2 - 3) written as 1 - 2 - 3 is
     another tree -/
 example : ¬ (PE.bin .sub (.num SF.one) (.bin .sub (.num SF.one) (.num SF.one))).fits 0 := by
@@ -206,12 +226,13 @@ example (pm : PfxMap) (fixed : Bool) :
     (by simp [exT1, renderX])
 
 /-- … and with a path: the text "../a+1" builds  .. a evalLocPath 1 add store -/
-def exE2 : PE := .bin .add (.path (.rel .up) [.name [] [97]]) (.num SF.one)
+def exE2 : PE := .bin .add (.path (.rel .up) [.name [] [97] []]) (.num SF.one)
 def exT3 : List Item :=
   [⟨.dotdot, [46, 46], []⟩, ⟨.ch (chr '/'), [47], []⟩, ⟨.nametest [] [97], [97], []⟩, ⟨.ch (chr '+'), [43], []⟩,
    ⟨.num SF.one, [49], []⟩]
 theorem exT3_ok : exT3.map (·.tok) = exE2.toks ∧ (∀ i ∈ exT3, i.ok) ∧ glued exT3 ∧ exE2.fits 0 ∧ exE2.lexable := by
-  refine ⟨rfl, ?_, ?_, by simp [exE2, PE.fits, level], by simp [exE2, PE.lexable]⟩
+  refine ⟨rfl, ?_, ?_, by simp [exE2, PE.fits, level, pathOK, PStep.ok, PStep.preds],
+    by simp [exE2, PE.lexable, pathCtx, PStep.preds]⟩
   · intro i hi
     simp only [exT3, List.mem_cons, List.mem_nil_iff, or_false] at hi
     rcases hi with rfl | rfl | rfl | rfl | rfl
